@@ -176,6 +176,20 @@ func c06Eng(cfg c06Config, width uint64, v *big.Int, sub *eng.Subst) (string, st
 			return "dishonest-digits/" + cfg.String(), fmt.Sprintf("%s(%s) under %s is satisfiable when the bit-decomposition hint returns non-boolean digits (%d such hints answered)", name, v, cfg, r2.LumpedBits), r2
 		}
 	}
+	if !want && res.Outcome == eng.Reject && res.FreeDivs > 0 {
+		// the rejected run went through DivUnchecked(0,0): that wire is unconstrained in compiled systems, so
+		// the prover may put anything there (with limbs chosen freely as well)
+		for _, fd := range []int64{1, 2} {
+			opt3 := opt
+			opt3.FreeDiv = big.NewInt(fd)
+			for _, plan := range []eng.Plan{opt.Plan, {0: eng.Subst{Strategy: "set", Vals: []*big.Int{new(big.Int).Rsh(v, 32), new(big.Int).And(v, big.NewInt(0xffffffff))}}}} {
+				opt3.Plan = plan
+				if r3, _ := gad.Run(opt3, []*big.Int{v, big.NewInt(0)}, c06Gadget(width, pad)); r3.Outcome == eng.Accept {
+					return "free-wire/" + cfg.String(), fmt.Sprintf("range check of %s (width %d, 0 = Goldilocks) under %s is satisfiable when the unconstrained result of DivUnchecked(0,0) is chosen as %d (%d such wires)", v, width, cfg, fd, r3.FreeDivs), r3
+				}
+			}
+		}
+	}
 	name := "RangeCheck"
 	if width != 0 {
 		name = fmt.Sprintf("RangeCheckWithMaxBits(%d)", width)
